@@ -33,11 +33,14 @@ Upper(s) == [i \in 1..Len(s) |-> UpperC(s[i])]
 Has(s, c) == \E i \in 1..Len(s) : s[i] = c
 HasAny(s, C) == \E i \in 1..Len(s) : s[i] \in C
 Count(s, c) == Cardinality({i \in 1..Len(s) : s[i] = c})
-MinOr0(S) == IF S = {} THEN 0 ELSE Min(S)
-MaxOr0(S) == IF S = {} THEN 0 ELSE Max(S)
-FirstPos(s, c) == MinOr0({i \in 1..Len(s) : s[i] = c})
-LastPos(s, c)  == MaxOr0({i \in 1..Len(s) : s[i] = c})
-FirstPosIn(s, C) == MinOr0({i \in 1..Len(s) : s[i] \in C})
+\* (Min / Max of FiniteSetsExt are quadratic CHOOSEs; these are linear folds)
+MinOr0(S) == IF S = {} THEN 0 ELSE FoldSet(LAMBDA x, a : IF x < a THEN x ELSE a, 2147483647, S)
+MaxOr0(S) == FoldSet(LAMBDA x, a : IF x > a THEN x ELSE a, 0, S)
+\* SelectInSeq / SelectLastInSeq / SelectInSubSeq have Java overrides (linear scans)
+FirstPos(s, c) == SelectInSeq(s, LAMBDA x : x = c)
+LastPos(s, c)  == SelectLastInSeq(s, LAMBDA x : x = c)
+FirstPosIn(s, C) == SelectInSeq(s, LAMBDA x : x \in C)
+FirstPosFrom(s, c, i) == IF i > Len(s) THEN 0 ELSE SelectInSubSeq(s, i, Len(s), LAMBDA x : x = c)
 From(s, i) == SubSeq(s, i, Len(s))          \* s[i..]
 Upto(s, i) == SubSeq(s, 1, i)               \* s[1..i]
 StartsWith(s, p) == Len(p) <= Len(s) /\ SubSeq(s, 1, Len(p)) = p
@@ -49,12 +52,11 @@ HasSub(s, p) == \E i \in 1..(Len(s) + 1) : SubAt(s, i, p)
 Cat(ss) == FlattenSeq(ss)
 
 \* split on one separator code point; always at least one piece
-SplitOn(s, c) ==
-  LET P  == {i \in 1..Len(s) : s[i] = c}
-      n  == Cardinality(P)
-      Ps == SetToSortSeq(P, <)
-      B  == [i \in 0..(n + 1) |-> IF i = 0 THEN 0 ELSE IF i = n + 1 THEN Len(s) + 1 ELSE Ps[i]]
-  IN [i \in 1..(n + 1) |-> SubSeq(s, B[i - 1] + 1, B[i] - 1)]
+RECURSIVE SplitFrom(_, _, _)
+SplitFrom(s, c, i) ==
+  LET k == FirstPosFrom(s, c, i)
+  IN IF k = 0 THEN <<SubSeq(s, i, Len(s))>> ELSE <<SubSeq(s, i, k - 1)>> \o SplitFrom(s, c, k + 1)
+SplitOn(s, c) == SplitFrom(s, c, 1)
 
 \* split on the first occurrence only: <<before, after>> ; found flag separately
 SplitFirst(s, c) ==
@@ -68,15 +70,12 @@ JoinWith(ss, c) ==
   IF Len(ss) = 0 THEN <<>>
   ELSE FlattenSeq([i \in 1..Len(ss) |-> IF i = 1 THEN ss[i] ELSE <<c>> \o ss[i]])
 
-Strip(s) ==
-  LET K == {i \in 1..Len(s) : ~IsWs(s[i])}
-  IN IF K = {} THEN <<>> ELSE SubSeq(s, Min(K), Max(K))
-StripChar(s, c) ==
-  LET K == {i \in 1..Len(s) : s[i] # c}
-  IN IF K = {} THEN <<>> ELSE SubSeq(s, Min(K), Max(K))
-RStripChar(s, c) ==
-  LET K == {i \in 1..Len(s) : s[i] # c}
-  IN IF K = {} THEN <<>> ELSE SubSeq(s, 1, Max(K))
+StripBy(s, Keep(_)) ==
+  LET a == SelectInSeq(s, Keep) b == SelectLastInSeq(s, Keep)
+  IN IF a = 0 THEN <<>> ELSE SubSeq(s, a, b)
+Strip(s) == StripBy(s, LAMBDA c : ~IsWs(c))
+StripChar(s, ch) == StripBy(s, LAMBDA c : c # ch)
+RStripChar(s, ch) == LET b == SelectLastInSeq(s, LAMBDA c : c # ch) IN SubSeq(s, 1, b)
 Without(s, Bad(_)) == SelectSeq(s, LAMBDA c : ~Bad(c))
 DropControls(s) == SelectSeq(s, LAMBDA c : ~IsControl(c))
 NonEmpty(ss) == SelectSeq(ss, LAMBDA x : x # <<>>)
